@@ -4,7 +4,7 @@
 set -e
 cd "$(dirname "$(readlink -f "$0")")/.."
 BIN=$(rustc +nightly --print sysroot)/lib/rustlib/x86_64-unknown-linux-gnu/bin
-(cd driver && RUSTFLAGS="-Cinstrument-coverage" CARGO_NET_OFFLINE=true CARGO_TARGET_DIR=/verif/.build/cov cargo +nightly build --offline --features full 2>&1 | tail -1)
+(cd driver && LLVM_PROFILE_FILE=/verif/.work/cov-build-%p.profraw RUSTFLAGS="-Cinstrument-coverage" CARGO_NET_OFFLINE=true CARGO_TARGET_DIR=/verif/.build/cov cargo +nightly build --offline --features full 2>&1 | tail -1)
 rm -rf .work/cov; mkdir -p .work/cov
 for id in C01 C02 C03 C04 C05 C06 C07 C08 C09 C10 C11 C12 C13 C14 C15 C16 C17 C20; do
   for f in .work/$id/s*.req; do
